@@ -6,7 +6,7 @@ CONSTANTS
   Alphabet = {97, 98, 99}
   Base = 2
   Off2N = 4
-  Len2N = 2
+  Len2N = 1
   Off3N = 8
   Len8N = 4
   GPS = 1
